@@ -549,7 +549,7 @@ func C12(r *ev.Report) {
 	vs := alpha.Thin(vals, 32)
 
 	if !ev.Thorough() {
-		us = alpha.Thin(vals, 900)
+		us = append(alpha.Thin(vals, 900), alpha.RawNeighbours(ref.P, 1)...)
 	}
 
 	r.Bound("sqrt_u", len(us))
